@@ -65,6 +65,9 @@ pub struct World {
   pub only_entries: BTreeMap<String, Entry>,
   /// modules answered under a final specifier other than the requested one
   pub final_specifiers: BTreeMap<String, String>,
+  /// BuildOptions::passthrough_jsr_specifiers of every build over this world (kept here because the
+  /// class of a jsr: specifier - resolved through the registry, or marked external at once - depends on it)
+  pub passthrough_jsr: bool,
 }
 
 pub fn render(src: &ModSrc, is_js: bool) -> String {
